@@ -7,6 +7,9 @@ use crate::world::{self, Slot};
 use std::sync::atomic::{AtomicU64, Ordering};
 use std::sync::Arc;
 
+/// Once this many violations have been collected the workers stop taking new runs.
+pub const MAX_VIOLATIONS: u64 = 48;
+
 pub fn threads() -> usize {
     if let Ok(v) = std::env::var("VERIF_THREADS") {
         if let Ok(n) = v.parse::<usize>() {
@@ -48,6 +51,7 @@ where
         })
         .collect();
     let done = AtomicU64::new(0);
+    let found = AtomicU64::new(0);
     let limit = hang_ms();
     let inflight_owned = std::env::var("VERIF_INFLIGHT").ok();
     let inflight: Option<&str> = inflight_owned.as_deref();
@@ -57,17 +61,26 @@ where
         for t in 0..nthreads {
             let slot = slots[t].clone();
             let next = &next;
+            let found = &found;
             let f = &f;
             let done = &done;
             handles.push(scope.spawn(move || {
                 world::set_slot(Some(slot.clone()));
                 let mut stats = Stats::default();
+                let mut counted = 0usize;
                 loop {
                     let start = next.fetch_add(32, Ordering::SeqCst);
-                    if start >= n_runs {
+                    if start >= n_runs || found.load(Ordering::SeqCst) >= MAX_VIOLATIONS {
                         break;
                     }
                     for run in start..(start + 32).min(n_runs) {
+                        // a few dozen violations decide the check; exploring (and minimising) on
+                        // after that only costs time
+                        if found.load(Ordering::SeqCst) >= MAX_VIOLATIONS {
+                            break;
+                        }
+                        found.fetch_add((stats.violations.len() - counted) as u64, Ordering::SeqCst);
+                        counted = stats.violations.len();
                         slot.run_index.store(run, Ordering::SeqCst);
                         if let Some(path) = inflight {
                             let _ = std::fs::write(path, run.to_string());
